@@ -23,7 +23,7 @@ ASSUMPTIONS = ["termination restated as a step budget of 2e5 + 2e3*len(text) lin
                "texts declaring registers larger than 6 qubits, or whose loops unroll to more than 20000 statement executions, are parsed but not executed (resource use proportional to the program, not termination)",
                "ImportError is accepted only when the program names a pulse module and pulses are auto-loaded"]
 TIERS = {"quick": {"shards": 8, "budget_s": 100}, "thorough": {"shards": 16, "budget_s": 480}}
-REQUIRE = {"alternating-twin-parses": 400, "class:deep-nesting-from-deep-stack": 40, "hang-probes": 15, "calls": 20000, "class:random": 1000, "class:truncation": 2000, "class:mutant": 2000, "class:template": 200,
+REQUIRE = {"import-layout-histories": 30, "alternating-twin-parses": 400, "class:deep-nesting-from-deep-stack": 40, "hang-probes": 15, "calls": 20000, "class:random": 1000, "class:truncation": 2000, "class:mutant": 2000, "class:template": 200,
            "outcome:JaqalParseError": 2000, "outcome:JaqalError": 500, "outcome:ok": 500, "position-checked": 2000,
            "histories": 8, "history-steps": 300, "fresh-single-text-runs": 8, "illegal-character-texts": 200,
            "relative-import-probes": 1}
@@ -612,6 +612,110 @@ json.dump(out, sys.stdout)
 '''
 
 
+LAYOUT_CHILD = r'''
+import sys, json, os
+sys.dont_write_bytecode = True
+spec = json.load(sys.stdin)
+root = spec["root"]
+site, project = os.path.join(root, "site"), os.path.join(root, "project")
+GATES = "from jaqalpaq.core import GateDefinition, Parameter, ParamType\nALL_GATES = {'%s': GateDefinition('%s', [Parameter('q', ParamType.QUBIT)])}\n"
+CLS = "from jaqalpaq.core import GateDefinition, Parameter, ParamType\nclass jaqal_gates:\n    ALL_GATES = {'%s': GateDefinition('%s', [Parameter('q', ParamType.QUBIT)])}\n"
+def put(path, text):
+    os.makedirs(os.path.dirname(path), exist_ok=True)
+    open(path, "w").write(text)
+for base, gate in ((site, "Sitegate"), (project, "Localgate")):
+    put(os.path.join(base, "vfpk", "__init__.py"), "")                        # a package, gates in a submodule
+    put(os.path.join(base, "vfpk", "jaqal_gates.py"), GATES % (gate, gate))
+    put(os.path.join(base, "vfmd.py"), CLS % (gate, gate))                     # a single file, gates in a class
+    put(os.path.join(base, "vfat", "__init__.py"), "from . import jaqal_gates\n")  # a package that imports its gates itself
+    put(os.path.join(base, "vfat", "jaqal_gates.py"), GATES % (gate, gate))
+put(os.path.join(site, "vfbr", "__init__.py"), "")
+put(os.path.join(site, "vfbr", "jaqal_gates.py"), GATES % ("Sitegate", "Sitegate"))
+put(os.path.join(project, "vfbr.py"), "import vf_helper_module_that_is_not_installed\n" + CLS % ("Localgate", "Localgate"))
+put(os.path.join(project, "vfbp", "__init__.py"), "")                          # local package whose gate module cannot be loaded
+put(os.path.join(project, "vfbp", "jaqal_gates.py"), "import vf_helper_module_that_is_not_installed\n")
+put(os.path.join(site, "vfbp.py"), CLS % ("Sitegate", "Sitegate"))
+sys.path.insert(0, site)
+from jaqalpaq.parser import parse_jaqal_string
+from jaqalpaq.error import JaqalError
+def attempt(name, relative):
+    text = "from %s%s usepulses *\nregister q[1]\n" % ("." if relative else "", name)
+    try:
+        c = parse_jaqal_string(text, autoload_pulses=True, import_path=project)
+        return ["ok", sorted(c.native_gates)]
+    except JaqalError as ex:
+        return ["JaqalError", str(ex)[:100]]
+    except ImportError as ex:
+        return ["ImportError", ""]
+    except Exception as ex:
+        return ["other:" + type(ex).__name__, str(ex)[:100]]
+json.dump([attempt(n, r) for n, r in spec["steps"]], sys.stdout)
+'''
+
+
+def import_layout_probe(ctx):
+    """Pulse modules in every layout the importer knows (single file with a jaqal_gates class, package with a jaqal_gates
+    submodule, package that imports its gates itself), one copy beside the program (relative import) and a different one
+    on the Python path (absolute import), plus local modules that fail while loading: whatever was imported before, each
+    import gives what it gives in a fresh process -- the local gates, the installed gates, or ImportError."""
+    import shutil
+
+    rec, rng = ctx.rec, ctx.rng
+    root = os.path.join(harness.ROOT, ".scratch", "pulses", "c16-layout-%d-%d" % (os.getpid(), ctx.index))
+    env = dict(os.environ)
+    env["PYTHONPATH"] = os.path.join(harness.REPO, "src")
+
+    def run(steps):
+        shutil.rmtree(root, ignore_errors=True)
+        p = subprocess.run([sys.executable, "-c", LAYOUT_CHILD], input=json.dumps({"root": root, "steps": steps}),
+                           capture_output=True, text=True, timeout=120, env=env)
+        if p.returncode != 0:
+            rec.inconc("import layout child failed: " + p.stderr[-400:])
+            return None
+        return json.loads(p.stdout)
+
+    try:
+        kinds = [(n, r) for n in ("vfpk", "vfmd", "vfat", "vfbr", "vfbp") for r in (True, False)]
+        fresh = {}
+        for k in kinds:
+            out = run([k])
+            if out is None:
+                return
+            fresh[k] = out[0]
+            rec.count("import-layout-steps")
+        rec.note("import_layouts_fresh_process", {"%s%s" % ("." if r else "", n): v for (n, r), v in fresh.items()})
+        want = {("vfpk", True): ["ok", ["Localgate"]], ("vfpk", False): ["ok", ["Sitegate"]], ("vfmd", True): ["ok", ["Localgate"]],
+                ("vfmd", False): ["ok", ["Sitegate"]], ("vfat", True): ["ok", ["Localgate"]], ("vfat", False): ["ok", ["Sitegate"]],
+                ("vfbr", True): ["ImportError", ""], ("vfbr", False): ["ok", ["Sitegate"]],
+                ("vfbp", True): ["ImportError", ""], ("vfbp", False): ["ok", ["Sitegate"]]}
+        for k, v in fresh.items():
+            if v != want[k]:
+                rec.violation(sig("C16", "pulse-import:%s:%s-import-of-%s" % (
+                    "wrong-exception:" + v[0][6:] if v[0].startswith("other:") else "wrong-module-or-outcome", "relative" if k[1] else "absolute",
+                    {"vfpk": "package", "vfmd": "single-file-module", "vfat": "package-importing-its-gates", "vfbr": "module-that-fails-to-load",
+                     "vfbp": "package-whose-gates-fail-to-load"}[k[0]])), {"got": v, "expected": want[k]}, {"kind": "import", "steps": [list(k)]})
+        names = ("vfpk", "vfmd", "vfat", "vfbr", "vfbp")
+        fixed = [[(n, True), (n, False), (n, True), (n, False)] for n in names] + [[(n, False), (n, True), (n, False), (n, True)] for n in names]
+        nrand = 6 if ctx.quick else 40
+        for h in range(len(fixed) + nrand):
+            # every name relative-then-absolute and absolute-then-relative, then random interleavings of all of them
+            steps = fixed[h] if h < len(fixed) else [rng.choice(kinds) for _ in range(rng.randint(4, 9))]
+            out = run(steps)
+            if out is None:
+                return
+            rec.count("import-layout-histories")
+            for i, (k, v) in enumerate(zip(steps, out)):
+                rec.count("import-layout-steps")
+                if v != fresh[k]:
+                    rec.violation(sig("C16", "sticky-state:pulse-import-depends-on-earlier-imports:%s-after-%s" % (
+                        ("relative" if k[1] else "absolute"), "+".join(sorted({("relative" if r else "absolute") for _n, r in steps[:i]})) or "nothing")),
+                        {"step": list(k), "fresh": fresh[k], "in_history": v, "history": [list(x) for x in steps[:i + 1]]},
+                        {"kind": "import", "steps": [list(x) for x in steps[:i + 1]]})
+                    break
+    finally:
+        shutil.rmtree(root, ignore_errors=True)
+
+
 def fs_history_probe(rec, d, text):
     """The module named by a relative pulse import is removed / replaced between calls: the
     outcome must follow the file system (ImportError when it is gone), never an earlier load."""
@@ -813,6 +917,8 @@ def shard(ctx):
     histories(ctx, pool)
     if ctx.index == 0:
         relative_import_probe(ctx)
+    if ctx.index in (3 % ctx.nshards, 5 % ctx.nshards):
+        import_layout_probe(ctx)
     if ctx.index == 2 % ctx.nshards:
         # the same two texts, one legal and one not, parsed alternately many times in one process: whatever the parser
         # remembers about objects of an earlier parse (their ids are reused once they are freed) must not change a verdict
